@@ -446,6 +446,65 @@ func runC15() {
 			}
 		}
 	}
+	// environments with EMBEDDED structs: members promoted from different depths, shadowed fields, promoted
+	// methods - as a struct, a pointer to it and a map with the same members (what Go resolves each name to)
+	{
+		mk := func() *c15Emb {
+			return &c15Emb{c15Audit: c15Audit{c15Deep: c15Deep{Level: 70, Deep: "deep"}, Who: "w"}, c15Limits: c15Limits{Level: 3, Max: 9}, Base: 100, Who: "top"}
+		}
+		asMap := func(e *c15Emb) map[string]interface{} {
+			return map[string]interface{}{"Level": e.Level, "Deep": e.Deep, "Who": e.Who, "Max": e.Max, "Base": e.Base, "Bump": e.Bump}
+		}
+		esrcs := []string{"Base + Level", "Level in [3, 4]", "Level == 3", "Who", "Who + Deep", "Max - Level", "[Level, Max, Base]", "Bump(Level)", "Level > 50 ? Who : Deep",
+			"map([1, 2], {# + Level})", "{a: Level, b: Who}", "Level * Level + Max", "len(Who) + Level", "Bump(Base) + Level", "all([Level, Max], {# < 10})"}
+		emodes := []struct {
+			name string
+			run  func(src string) (interface{}, error)
+		}{
+			{"Eval(*struct)", func(src string) (interface{}, error) { return expr.Eval(src, mk()) }},
+			{"Eval(struct)", func(src string) (interface{}, error) { return expr.Eval(src, *mk()) }},
+			{"Eval(map)", func(src string) (interface{}, error) { return expr.Eval(src, asMap(mk())) }},
+			{"Compile+Env(*struct)", func(src string) (interface{}, error) {
+				e0 := mk()
+				o, e, _ := compileRun(src, e0, expr.Env(e0))
+				return o, e
+			}},
+			{"Compile+Env(struct)", func(src string) (interface{}, error) {
+				e0 := mk()
+				o, e, _ := compileRun(src, *e0, expr.Env(*e0))
+				return o, e
+			}},
+			{"Compile+Env(map)", func(src string) (interface{}, error) {
+				m := asMap(mk())
+				o, e, _ := compileRun(src, m, expr.Env(m))
+				return o, e
+			}},
+			{"Compile, run on struct", func(src string) (interface{}, error) { o, e, _ := compileRun(src, *mk()); return o, e }},
+		}
+		for _, src := range esrcs {
+			var first, firstName string
+			have := false
+			for _, m := range emodes {
+				out, err := m.run(src)
+				rep.Evaluations++
+				if err != nil {
+					rep.hist("embedded-struct family: fails in " + m.name)
+					continue
+				}
+				got := fmt.Sprintf("%#v", normSeq(out))
+				if !have {
+					first, firstName, have = got, m.name, true
+					continue
+				}
+				distinct["emb|"+src] = true
+				if got != first {
+					rep.fail(Failure{Key: "C15-modes-disagree", What: "struct / pointer / map environments with the same members return different results (members promoted through embedded structs)",
+						Input: map[string]interface{}{"src": src, "env": "c15Emb", "a": firstName, "b": m.name}, Want: clip(first), Got: clip(got)})
+					break
+				}
+			}
+		}
+	}
 	rep.Distinct = len(distinct)
 	rep.Rule = "every source (exhaustive shape family sample + type-directed random expressions incl. 2% ill-typed operands) x every environment is run in 8 variants: Eval; Compile without Env; with Env(*struct), Env(struct), Env(map[string]interface{}) each with and without AllowUndefinedVariables; no Env but a map environment; all variants that succeed must return equal values (with dynamic types) and equal call logs; distinct_nontrivial = distinct (source, environment) with at least two succeeding variants; typed and untyped trees are also evaluated in the Coq model (specialised vs generic instructions)"
 	for i := 0; i < 5 && i < len(srcs); i++ {
@@ -563,3 +622,26 @@ func c15CallInRangeLeft(src string) bool {
 	}))
 	return found
 }
+
+// environment with embedded structs: Level is promoted from depth 1 (c15Limits) AND from depth 2 (c15Audit.c15Deep):
+// Go resolves the shallowest; Who is shadowed by the own field
+type c15Deep struct {
+	Level int
+	Deep  string
+}
+type c15Audit struct {
+	c15Deep
+	Who string
+}
+type c15Limits struct {
+	Level int
+	Max   int
+}
+type c15Emb struct {
+	c15Audit
+	c15Limits
+	Base int
+	Who  string
+}
+
+func (e c15Emb) Bump(x int) int { return x + 1 }
